@@ -303,6 +303,7 @@ type callResult struct {
 	panic string
 	hang  bool
 	text  string
+	tape  string
 }
 
 var callTimeout = 20 * time.Second
@@ -374,8 +375,15 @@ func (rn *runner) ctxCase(op string, c *apd.Context, x, y *apd.Decimal, iarg int
 	cc := *c
 	res := guarded(func() callResult {
 		d := junk(rn.r)
+		if tapeOps[op] {
+			tapeStart()
+		}
 		r, e, aux := def.run(&cc, d, xc, yc, iarg)
-		return callResult{d: d, res: r, err: e, aux: aux}
+		tape := ""
+		if tapeOps[op] {
+			tape = " " + tapeStop()
+		}
+		return callResult{d: d, res: r, err: e, aux: aux, tape: tape}
 	})
 	rn.emit(op, input, c, res)
 }
@@ -407,7 +415,7 @@ func (rn *runner) emit(op, input string, c *apd.Context, res callResult) {
 			tag = "rounded-exact"
 		}
 		rn.st.note(op, input, ek, uint32(res.res), nontrivial, tag)
-		fmt.Fprintf(rn.w, "%s %s => %s %d %s %d\n", id, input, showDec(res.d), uint32(res.res), ek, res.aux)
+		fmt.Fprintf(rn.w, "%s %s => %s %d %s %d%s\n", id, input, showDec(res.d), uint32(res.res), ek, res.aux, res.tape)
 	}
 }
 
